@@ -118,6 +118,80 @@ def fn_body(src, name, g):
     return max(bs, key=len)
 
 
+
+ACQ = r'(?:self\s*\.\s*(?:inner\s*\.\s*)?(get_meta|refresh_meta|load_meta))\s*\('
+VERIFY = r'(?:verify_metadata|verify|validator)\s*\('
+
+
+def loop_body_at(body, pos):
+    """If `pos` lies inside a `loop { }` of this function body, return (start, end) of the innermost one."""
+    best = None
+    for m in re.finditer(r"(?:'\w+\s*:\s*)?\bloop\s*\{", body):
+        i, depth = m.end(), 1
+        while i < len(body) and depth:
+            depth += {'{': 1, '}': -1}.get(body[i], 0)
+            i += 1
+        if m.end() <= pos < i and (best is None or m.end() > best[0]):
+            best = (m.end(), i - 1)
+    return best
+
+
+def acquisition_sites(fname, body, g):
+    """Every point where the function obtains a metadata document (get_meta / refresh_meta / load_meta, or the
+    cache-or-fetch expression of listing_entry), per loop iteration, with: is the result bound, and is the
+    first thing done with the bound document a call of the authenticating callback?  A refresh whose result
+    is dropped must be followed by `continue` so that the loop head re-acquires (and re-verifies)."""
+    out = []
+    for m in re.finditer(ACQ, body):
+        kind = m.group(1)
+        stmt_start = max(body.rfind(';', 0, m.start()), body.rfind('{', 0, m.start()), body.rfind('}', 0, m.start())) + 1
+        stmt = body[stmt_start:m.start()]
+        bm = re.search(r'(?:let\s+(?:mut\s+)?)?(\w+)\s*(?::[^=]+)?=\s*$', stmt)
+        semi = body.find(';', m.end())
+        rest = body[semi + 1:]
+        lp = loop_body_at(body, m.start())
+        if bm is None:
+            # result dropped: only the cache is refreshed; control must go back to the loop head
+            nxt = re.match(r'\s*continue\b', rest)
+            ok = (kind != 'refresh_meta') or (nxt is not None and lp is not None)
+            if kind == 'refresh_meta' and ok:
+                head = body[lp[0]:lp[1]]
+                hm = re.search(ACQ, head)
+                ok = hm is not None and hm.group(1) == 'get_meta' and first_use_is_verify(head[hm.end():], bound_name(head, hm))
+            out.append((fname, kind, 'dropped', lp is not None, ok))
+            continue
+        name = bm.group(1)
+        # what runs next with this document: the rest of the block; after `continue`, the loop from its head
+        flow = rest
+        cm = re.match(r'\s*continue\b', rest)
+        if cm and lp is not None:
+            flow = body[lp[0]:lp[1]]
+        out.append((fname, kind, 'bound', lp is not None, first_use_is_verify(flow, name)))
+    return out
+
+
+def bound_name(text, m):
+    stmt_start = max(text.rfind(';', 0, m.start()), text.rfind('{', 0, m.start()), text.rfind('}', 0, m.start())) + 1
+    bm = re.search(r'(?:let\s+(?:mut\s+)?)?(\w+)\s*(?::[^=]+)?=\s*$', text[stmt_start:m.start()])
+    return bm.group(1) if bm else None
+
+
+def first_use_is_verify(flow, name):
+    if name is None:
+        return False
+    um = re.search(r'\b%s\b' % re.escape(name), flow)
+    if not um:
+        return True          # never used
+    # the first mention must be an argument of the verifying call
+    before = flow[:um.start()]
+    vm = list(re.finditer(VERIFY, before))
+    if not vm:
+        return False
+    last = vm[-1]
+    between = before[last.end():]
+    return between.count('(') == between.count(')') and ';' not in between
+
+
 def fld(name, g):
     if name not in FIELD:
         lost(g, 'unmodelled Metadata field ' + name)
@@ -196,6 +270,40 @@ def generate(repo):
     out.append('Definition get_ranges_checks_span_length : bool := %s.\n' % (
         'true' if re.search(r'data\.len\(\)\s+as\s+u64\s*!=\s*span_end\s*-\s*span_start', b) else 'false'))
 
+
+    # ---- every acquisition of a metadata document for use is authenticated in the same loop iteration
+    sites = []
+    for src_text, fns in ((enc, ('get_opts', 'get_ranges', 'verified_metadata')), (sc, ('copy_payload',))):
+        for fn in fns:
+            b = fn_body(src_text, fn, g)
+            found = acquisition_sites(fn, b, g)
+            if not found:
+                lost(g, 'metadata acquisition in ' + fn)
+            sites.extend(found)
+    # listing_entry: cache-or-fetch expression bound to `meta`, first use must be the validator
+    le = fn_body(sc, 'listing_entry', g)
+    lm = re.search(r'let\s+meta\s*:\s*Arc<M>\s*=\s*if\s+let\s+Some\(meta\)\s*=\s*self\.meta_cache\.get\(', le)
+    if not lm:
+        lost(g, 'listing_entry acquisition')
+    else:
+        # skip the whole `if let .. else { match .. };` expression
+        i = le.find('{', lm.end()); depth = 0; j = i
+        blocks = 0
+        while j < len(le):
+            if le[j] == '{':
+                depth += 1
+            elif le[j] == '}':
+                depth -= 1
+                if depth == 0:
+                    blocks += 1
+                    if blocks == 2:
+                        break
+            j += 1
+        sites.append(('listing_entry', 'cache_or_fetch', 'bound', False, first_use_is_verify(le[j + 1:], 'meta')))
+    out.append('\n(* (function, how the document is obtained, bound/dropped, inside a loop, authenticated before first use) *)\n')
+    out.append('Definition acquisition_sites : list (string * string * string * bool * bool) := [%s].\n' % '; '.join(
+        '(%s, %s, %s, %s, %s)' % (coq_string(a), coq_string(b_), coq_string(c), 'true' if d else 'false', 'true' if e else 'false')
+        for a, b_, c, d, e in sites))
     # constants
     for c in ('CHUNK_AAD_LEGACY', 'CHUNK_AAD_BOUND'):
         m = re.search(r'const\s+%s\s*:\s*u8\s*=\s*(\d+)\s*;' % c, enc)
